@@ -1539,7 +1539,13 @@ def _tokenize(
     yield TokenInfo(ENDMARKER, "", (lnum, 0), (lnum, 0), "")
 
 
-def tokenize(readline, tolerant=False, tokenize_ioredirects=True, is_subproc=False):
+def tokenize(
+    readline,
+    tolerant=False,
+    tokenize_ioredirects=True,
+    is_subproc=False,
+    encoding=None,
+):
     """
     The tokenize() generator requires one argument, readline, which
     must be a callable object which provides the same interface as the
@@ -1565,7 +1571,12 @@ def tokenize(readline, tolerant=False, tokenize_ioredirects=True, is_subproc=Fal
     io-redirection operators like ``2>``. Otherwise, treat code like ``2>`` as
     regular Python code.
     """
-    encoding, consumed = detect_encoding(readline)
+    if encoding is None:
+        encoding, consumed = detect_encoding(readline)
+    else:
+        # the caller knows how the bytes were encoded (text input): a PEP 263
+        # cookie in the text must not be used to decode them again
+        consumed = []
     rl_gen = iter(readline, b"")
     empty = itertools.repeat(b"")
     return _tokenize(
